@@ -44,6 +44,11 @@ WITNESSES = {
     # the reader set grows in the middle of the history / the instrument is created after a collection
     "d+c": ["WitOldAfterGrowth", "WitLateReader", "WitBeforeCreate"],
     "d+d": ["WitOldAfterGrowth"],
+    # ONE reader is shut down in the middle (the others go on): the reader that stays is handed what the reader
+    # that left had swapped out - B collects, B is shut down, [more Adds,] A collects - for A delta / cumulative,
+    # A first / second in the provider's list; a reader collecting after its own shutdown
+    "dc!": ["WitSurvDeltaParked", "WitSurvDeltaParkedNew", "WitSurvDeltaLater", "WitSurvCumParkedNew", "WitDownCollect"],
+    "cd!": ["WitSurvDeltaParked", "WitSurvDeltaParkedNew", "WitSurvCumParked"],
 }
 
 
@@ -58,6 +63,10 @@ def _configs(thorough, dev=()):
         # the reader set grows: one delta reader (fast path) first, a second reader is registered later
         "d+c": M.ModelCfg("T_dc", "F_all", "AS_two", init=1, handles=1, maxadd=3 if thorough else 2, maxcol=4 if thorough else 3, dev=dev),
         "d+d": M.ModelCfg("T_dd", "F_all", "AS_two", init=1, handles=1, maxadd=2, maxcol=4 if thorough else 3, dev=dev),
+        # readers are shut down individually in the middle of the history ("d+c!" also contains every history of "d+c")
+        "d+c!": M.ModelCfg("T_dc", "F_all", "AS_two", init=1, handles=1, maxadd=3 if thorough else 2, maxcol=4 if thorough else 3, shutdown=1, dev=dev),
+        "dc!": M.ModelCfg("T_dc", "F_all", "AS_two", handles=1, maxadd=3 if thorough else 2, maxcol=3, shutdown=1, dev=dev),
+        "ddc!": M.ModelCfg("T_ddc", "F_all", "AS_two", handles=1, maxadd=2, maxcol=3, shutdown=2, dev=dev),       # thorough only
     }
 
 
@@ -67,6 +76,7 @@ def _asimpl(thorough):
         "dc": M.ModelCfg("T_dc", "F_all", "AS_two", handles=2, maxadd=3 if thorough else 2, maxcol=3, dev=MY_DEVS),
         "dc2v": M.ModelCfg("T_dc", "F_all_k1", "AS_two", handles=2 if thorough else 1, maxadd=2, maxcol=3, dev=MY_DEVS),
         "d+c": M.ModelCfg("T_dc", "F_all", "AS_two", init=1, handles=1, maxadd=2, maxcol=3, dev=MY_DEVS),
+        "dc!": M.ModelCfg("T_dc", "F_all", "AS_two", handles=1, maxadd=2, maxcol=3, shutdown=1, dev=MY_DEVS),
     }
 
 
@@ -94,7 +104,9 @@ def generate(ctx):
             "dc2v": M.ModelCfg("T_dc", "F_all_k1", "AS_perm", handles=1, maxadd=3, maxcol=3),
             "dcpm": M.ModelCfg("T_dc", "F_all", "AS_two", handles=1, amounts="AM_pm", maxadd=3, maxcol=3),
             "d+c": M.ModelCfg("T_dc", "F_all", "AS_two", init=1, handles=1, maxadd=4, maxcol=4),
-            "d+d": M.ModelCfg("T_dd", "F_all", "AS_two", init=1, handles=1, maxadd=4, maxcol=4)}
+            "d+d": M.ModelCfg("T_dd", "F_all", "AS_two", init=1, handles=1, maxadd=4, maxcol=4),
+            "dc!": M.ModelCfg("T_dc", "F_all", "AS_two", handles=1, maxadd=4, maxcol=4, shutdown=1),
+            "cd!": M.ModelCfg("T_cd", "F_all", "AS_two", handles=1, maxadd=4, maxcol=4, shutdown=1)}
     for k, names in WITNESSES.items():
         jobs += [M.witness_job(wcfg[k], w) for w in names]
     # shortest histories on which the as-implemented model breaks a clause (directed at the defects)
@@ -111,6 +123,12 @@ def generate(ctx):
         M.ModelCfg("T_cd", "F_all", "AS_two", init=1, handles=1, maxadd=2, maxcol=3),
     ]
     jobs += [M.bfs_job(mc, limit=4000 if thorough else 400, seed=ctx.seed) for mc in small]
+    # one reader is shut down in the middle of the history, the other goes on
+    small_shut = [
+        M.ModelCfg("T_dc", "F_all", "AS_two", handles=1, maxadd=2, maxcol=3, shutdown=1),
+        M.ModelCfg("T_dd", "F_all", "AS_two", handles=1, maxadd=2, maxcol=3, shutdown=1),
+    ]
+    jobs += [M.bfs_job(mc, limit=2000 if thorough else 200, seed=ctx.seed) for mc in small_shut]
     # random walks, deeper
     deep = [
         M.ModelCfg("T_d", "F_all", "AS_perm", handles=2, maxadd=8, maxcol=6),
@@ -120,6 +138,11 @@ def generate(ctx):
         M.ModelCfg("T_ddc", "F_all", "AS_perm", init=1, handles=2, maxadd=8, maxcol=8),    # readers arrive late
     ]
     jobs += [M.sim_job(mc, num=300 if thorough else 80, depth=24, seed=ctx.seed * 101 + i) for i, mc in enumerate(deep)]
+    deep_shut = [
+        M.ModelCfg("T_ddc", "F_all", "AS_perm", handles=1, maxadd=8, maxcol=8, shutdown=2),        # readers are shut down one by one
+        M.ModelCfg("T_cd", "F_all", "AS_dup", init=1, handles=2, maxadd=8, maxcol=7, shutdown=1),  # ... and arrive late
+    ]
+    jobs += [M.sim_job(mc, num=300 if thorough else 50, depth=24, seed=ctx.seed * 103 + i) for i, mc in enumerate(deep_shut)]
     behs = M.run_jobs(ctx, jobs, parallel=4)
     ctx.extra["witness_behaviours"] = sum(1 for b in behs if b["src"].startswith("Wit"))
     if ctx.extra["witness_behaviours"] != nwit:
@@ -138,10 +161,13 @@ def random_programs(ctx, n, x0):
         two_views = rng.random() < 0.25
         filters = [[0], rng.choice([[1], [1, 2], []])] if two_views else [[0]]
         late = [rng.choice(["delta", "cum"]) for _ in range(rng.choice([1, 1, 2]))] if rng.random() < 0.3 else []
+        # 40 % of the histories with >= 2 readers: 1 .. all-but-one readers are shut down individually in the middle
+        shut = rng.randrange(1, nr + len(late)) if nr + len(late) >= 2 and rng.random() < 0.4 else 0
         progs.append(M.random_program(rng, x0 + i, mode="api", temps=temps, filters=filters,
                                       handles=2 if rng.random() < 0.25 else 1, nops=rng.randrange(100, 401),
                                       nsets=rng.randrange(10, 21), nkeys=4, nvals=3, p_collect=rng.choice([0.05, 0.15, 0.3]),
-                                      late=late, collect_first=rng.random() < 0.2))
+                                      late=late, collect_first=rng.random() < 0.2, shutdown=shut,
+                                      p_down_collect=rng.choice([0.0, 0.0, 0.1])))
     return progs
 
 
@@ -159,7 +185,8 @@ def execute_and_validate(ctx, exe, programs, tag):
 def run(ctx):
     thorough = ctx.tier == "thorough"
     ctx.assumptions += [
-        "sum aggregation only (counters / up-down counters), one instrument, one meter; readers registered in the middle of a history are exercised, but what such a late reader itself is handed (values, start of its first delta interval) is left open",
+        "sum aggregation only (counters / up-down counters), one instrument, one meter; readers registered in the middle of a history are exercised, but what such a late reader itself is handed (values, start of its first delta interval) is left open; "
+        "readers shut down individually in the middle of a history (MetricReader::Shutdown, provider alive) are exercised: every other reader keeps every clause, what the shut-down reader itself is handed afterwards is not examined",
         "timestamps are compared as ranks (SDK start, k-th collection); the clock is read strictly increasing between operations",
         "exhaustive TLC results are for the stated small constants (<= 3 readers, <= 2 handles, <= 2 view streams, <= 4 Adds, <= 4 Collects); longer histories are sampled",
         "abstract amounts are small integers, concretised as n*M: doubles M in {1, 0.25, 1024} (exactly representable sums; floating-point rounding is not examined), integers M in {1, 3, a huge odd multiplier such as 2^53+1} with every sum exact in int64 but not in double",
@@ -173,8 +200,8 @@ def run(ctx):
     # 1. exhaustive model checking --------------------------------------------------------------------
     ideal = _configs(thorough)
     asimpl = _asimpl(thorough)
-    order = ["d+c", "d", "dc", "dc2v", "dcpm", "ddc", "d+d"]
-    M.model_check(ctx, [ideal[k] for k in order] + [asimpl[k] for k in ("d", "dc", "dc2v", "d+c")],
+    order = ["d+c!", "d", "dc", "dc2v", "dcpm", "ddc", "d+d", "dc!"] + (["ddc!"] if thorough else [])
+    M.model_check(ctx, [ideal[k] for k in order] + [asimpl[k] for k in ("d", "dc", "dc2v", "d+c", "dc!")],
                   workers=4 if thorough else 3, parallel=3 if thorough else 2, timeout_s=2400 if thorough else 900)
     _t(ctx, "model checking")
     # 2. behaviours of the model ------------------------------------------------------------------------
